@@ -82,6 +82,32 @@ def explore(problem, depth, max_states=60):
     return list(seen.values()), gas
 
 
+def static_conflict_after_grounding(pr, a, ps):
+    """True when grounding `a` with `ps` yields two UNCONDITIONAL assignments (condition simplifies to true once the parameters are
+    substituted) of one ground non-Boolean fluent whose value expressions differ syntactically: the library then refuses to build the
+    ground action (static conflict check), whatever the values evaluate to in the state at hand -- a known deviation (see known_findings)"""
+    try:
+        subs = dict(zip([pr.environment.expression_manager.ParameterExp(p_) for p_ in a.parameters],
+                        [pr.environment.expression_manager.ObjectExp(o) if hasattr(o, "type") and not hasattr(o, "node_type") else o for o in ps]))
+        seen = {}
+        for e in a.effects:
+            for ee in e.expand_effect(pr):
+                if not ee.is_assignment() or ee.fluent.type.is_bool_type():
+                    continue
+                if not ee.condition.substitute(subs).simplify().is_true():
+                    continue
+                f, v = ee.fluent.substitute(subs).simplify(), ee.value.substitute(subs).simplify()
+                if f in seen and seen[f] != v:
+                    return True
+                seen.setdefault(f, v)
+    except Exception:  # noqa
+        return False
+    return False
+
+
+STATIC_TAG = "ground-action-has-two-unconditional-assignments-of-one-fluent-with-syntactically-different-values"
+
+
 def crafted_nested_invariant(s):
     """a state invariant that reads one fluent through another (`ok(target)`): the ground fluent the invariant depends on changes with
     the state, and an action can break the invariant by writing a ground fluent that occurs nowhere in it syntactically"""
